@@ -278,4 +278,5 @@ TopValue(out) == IF out.err # "" THEN Err(out.err) ELSE out.res
 OutcomeMatches(e, out) ==
   /\ Matches(e, TopValue(out))
   /\ (out.err # "" => out.res.t = "blank")
+  /\ (out.err = "" => out.res.t # "err")       \* an error that reaches the top is reported under error, never as the result
 =============================================================================
